@@ -108,11 +108,16 @@ fn item_chroma_sweep(i: u64, sweep_cr: bool, acc: &mut Acc) {
     let (yy, other) = ((i >> 8) as u8, (i & 255) as u8);
     let w = 4usize;
     let h = 512usize;
-    let y = vec![yy; w * h];
+    // the planes start at byte offsets 0..3 of their buffers, varying with the item
+    let (oy, ob, or) = ((i % 4) as usize, ((i >> 2) % 4) as usize, ((i >> 4) % 4) as usize);
+    let ybuf = vec![yy; w * h + 3];
+    let y = &ybuf[oy..oy + w * h];
     let cw = 2;
     let ch = 256;
-    let mut pb = vec![0u8; cw * ch];
-    let mut pr = vec![0u8; cw * ch];
+    let mut pbbuf = vec![0u8; cw * ch + 3];
+    let mut prbuf = vec![0u8; cw * ch + 3];
+    let pb = &mut pbbuf[ob..ob + cw * ch];
+    let pr = &mut prbuf[or..or + cw * ch];
     for k in 0..ch {
         for x in 0..cw {
             if sweep_cr {
@@ -124,7 +129,8 @@ fn item_chroma_sweep(i: u64, sweep_cr: bool, acc: &mut Acc) {
             }
         }
     }
-    let out = match guard(|| yuv420_to_rgba(&y, &pb, &pr, w)) {
+    let (pb, pr) = (&*pb, &*pr);
+    let out = match guard(|| yuv420_to_rgba(y, pb, pr, w)) {
         Ok(o) => o,
         Err(p) => {
             acc.fail(json!({"kind":"params","y":yy,"other":other,"sweep_cr":sweep_cr}), format!("panicked: {}", p));
@@ -168,14 +174,17 @@ fn item_chroma_sweep(i: u64, sweep_cr: bool, acc: &mut Acc) {
 /// clamping values, ...), so that equal groups, equal rows, Cb rows equal to Cr rows and special
 /// values sit next to different ones; every pixel is compared with the model of its own triple.
 fn context_case(g: &mut crate::gen::Gen) -> Verdict {
-    let w = if g.chance(1, 3) { g.range(1, 9) } else { g.range(4, 40) } as usize;
-    let h = g.range(1, 10) as usize;
+    let wide = g.chance(1, 300);
+    let w = if wide { g.range(4090, 9000) } else if g.chance(1, 3) { g.range(1, 9) } else { g.range(4, 40) } as usize;
+    let h = if wide { g.range(2, 3) } else { g.range(1, 10) } as usize;
     let sparse = g.chance(1, 4);
     let mut src = || g.byte();
-    let family = if sparse { 5 } else { 4 };
+    let family = if wide { 2 } else if sparse { 5 } else { 4 };
     let (y, cb, cr) = super::c08::planes(w, h, family, &mut src);
     g.describe(|| json!({"w": w, "h": h, "y": y, "cb": cb, "cr": cr}));
-    match super::c08::check_picture_at(w, &y, &cb, &cr, (0, 0, 0)) {
+    // the planes are handed over at byte offsets 0..3 of their buffers (slices of packed frames)
+    let offs = (g.below(4) as usize, g.below(4) as usize, g.below(4) as usize);
+    match super::c08::check_picture_at(w, &y, &cb, &cr, offs) {
         Err(m) => Verdict::fail(m),
         Ok(()) => {
             let cw = (w + 1) / 2;
